@@ -107,6 +107,9 @@ def run(ctx):
             # circles and the result rests on the short-sequence fallback of the estimate
             r, ne = rng.choice([0.3, 0.5, 0.75, 1.0]), rng.choice([1, 1, 2])
             ratio = rng.choice([1.6, 2.0, 3.0, ratio])
+        if not default_r and rng.random() < 0.2:
+            # a small initial radius with many coefficients (r**-k overflows on the first circles) and a single extrapolation circle
+            r, ne, n = 10 ** rng.uniform(-5, -2.5), 1, rng.choice([60, 75, 100])
         kw = dict(n=n, r=r, step_ratio=ratio, num_extrap=ne, full_output=True)
         if default_r and rng.random() < 0.5:
             kw = dict(n=n, full_output=True)
